@@ -191,5 +191,19 @@ func checks() map[string]CheckDef {
 		Outside: []string{"the connection manager half of the property (outbound target kept, redial after failure): connmgr.connHandler is a select loop over channels and timers, not encodable", "ban boundaries within one second of now (left out so that replays on the real clock are deterministic)", "addrmgr.GroupKey is an uninterpreted function of the address", "per-host limit counts non-persistent peers only (persistent peers are operator-added and deliberately not counted)"},
 		Stubs:   []string{"real server / serverPeer / peer.Peer objects without sockets (in-package constructors)", "time.Now arbitrary non-decreasing; the step is assumed to take at most one second"},
 	})
+	add(CheckDef{
+		ID: "C17", Level: "model_checking",
+		Runs: []HRun{
+			{Pkg: "database", Func: "HarnessRoundTrip", Quick: [][]int64{{1}, {2}, {3}}, Thorough: [][]int64{{3}, {4}},
+				Labels: []string{"C17/same-hash-at-same-height", "C17/same-fields", "C17/same-cumulative-work", "C17/all-on-the-longest-chain", "C17/stale-and-orphan-headers-left-out", "C17/import-succeeds", "C17/import-count-reported"}},
+			{Pkg: "database", Func: "HarnessBatches", Quick: [][]int64{{2}, {3}}, Thorough: [][]int64{{3}, {4}},
+				Labels: []string{"C17/same-hash-at-same-height", "C17/same-cumulative-work", "C17/stale-and-orphan-headers-left-out", "C17/batch-import-succeeds"}},
+			{Pkg: "database", Func: "HarnessSecondStart", Quick: [][]int64{{1}, {2}}, Thorough: [][]int64{{3}},
+				Labels: []string{"C17/existing-headers-never-overwritten", "C17/start-on-inconsistent-leftover-is-refused"}},
+		},
+		Bounds:  []string{"export (real selectHeadersSQL, sqlx.Rows scanning, record writing) of an arbitrary INV-H store of k rows (quick k<=3, thorough k<=4) whose longest-chain headers are real headers (hash = block hash of the fields, genesis previous hash zero, work of the bits), followed by the real sqLiteAdapter.importHeaders / insertHeaders / prepareRecord / calculateFields / CreateMultiple into an empty database; every field symbolic (negative versions, maximal nonce, timestamps over the epoch range), bits of longest-chain rows from a 2-entry menu", "batch boundaries: the same records imported with batch size 1 through insertHeaders, threading the state like importHeaders does", "second start: importHeaders on an arbitrary non-empty table (k<=3 rows) with an arbitrary newest checkpoint"},
+		Outside: []string{"files, gzip, CSV text and quoting (a csv.Writer/Reader/os.File is a list of records)", "PRAGMA changes and index drop/restore have no effect on the relational content", "the production batch size of 500 (a chain longer than one production batch is outside the row bound; the batch-size-1 harness covers the threading between batches)", "malformed rows: only the refusal of an inconsistent table by validateDbConsistency enters (through the second-start harness)", "SHA-256 uninterpreted"},
+		Stubs:   []string{"encoding/csv and *os.File as record lists; sqlx.Rows over the sqlm result; sqlite_master index listing from the probed schema"},
+	})
 	return m
 }
